@@ -1,6 +1,6 @@
 """C09 — explainable quantities obey unit-safe arithmetic (contracts on the real operators + operand generator)."""
 import hashlib, random
-from datetime import datetime, timedelta
+from datetime import datetime, timedelta, timezone
 import numpy as np
 from .. import env, contracts, observe, gen
 from ..history import case_rng, Hist
@@ -17,7 +17,7 @@ BUDGET = {"quick": 200, "thorough": 1200}
 N_PAIR_CASES = {"quick": 120, "thorough": 3000}
 N_SYS_CASES = {"quick": 30, "thorough": 300}
 PAIRS = 60
-UNITS = [("kB", "MB"), ("GB", "TB"), ("W", "kW"), ("s", "hour"), ("kg", "g"), ("kWh", "Wh"), ("cpu_core", "cpu_core"), ("dimensionless", "dimensionless")]
+UNITS = [("kB", "MB"), ("GB", "TB"), ("W", "kW"), ("s", "hour"), ("kg", "g"), ("kWh", "Wh"), ("cpu_core", "cpu_core"), ("dimensionless", "percent")]
 
 
 def cases(tier, seed):
@@ -32,7 +32,10 @@ def requirements(tier):
                              "incompatible_dimension_pairs": 300 * k, "empty_neutral_checked": 300 * k, "empty_absorbing_checked": 300 * k,
                              "commutativity_checked": 1000 * k, "sum_law_checked": 300 * k, "op_np_compared_with": 300 * k,
                              "op_shift": 200 * k, "op_ceil": 200 * k, "op_round": 200 * k, "copy_independence_checked": 2000 * k, "internal_calls_in_system_workloads": 2000},
-            "required_classes": ["pairs", "system", "tz_aware", "naive", "disjoint_index", "gapped_index", "same_span_different_gaps"]}
+            "required_classes": ["pairs", "system", "tz_aware", "naive", "disjoint_index", "gapped_index", "same_span_different_gaps", "aware_non_utc_start_through_builder"]}
+
+
+BUILDER_VIOLATIONS = []
 
 
 def rand_scalar(rnd, E):
@@ -52,7 +55,24 @@ def rand_hourly(rnd, E, classes, base_start=None, tz=None):
     if rnd.random() < 0.25 and n >= 3:
         df = df.drop(df.index[rnd.randrange(1, n - 1)]); classes.add("gapped_index")
     aware = tz if tz is not None else (rnd.random() < 0.4)
-    if aware:
+    if aware and rnd.random() < 0.4 and len(df) == n:
+        # the same series requested from the list builder with a time-zone-aware start date that is not in UTC: one value per hour
+        # from that very instant
+        off = rnd.choice([2, -5, 5.5, 9])
+        astart = start.replace(tzinfo=timezone(timedelta(hours=off)))
+        classes.add("tz_aware"); classes.add("aware_non_utc_start_through_builder")
+        try:
+            df = E.create_hourly_usage_df_from_list(vals, astart, E.u(unit).units)
+            got = [int(t.timestamp()) for t in df.index]
+            exp = [int(astart.timestamp()) + 3600 * i for i in range(n)]
+            if got != exp:
+                BUILDER_VIOLATIONS.append({"kind": "list builder with a time-zone-aware start: the hours are not the requested instants",
+                                           "start": str(astart), "first_hour_built": str(df.index[0]), "n": n})
+            df = df.tz_convert("UTC")
+        except Exception as e:
+            BUILDER_VIOLATIONS.append({"kind": f"list builder with a time-zone-aware start raised {type(e).__name__}: {str(e)[:120]}", "start": str(astart)})
+            df = E.create_hourly_usage_df_from_list(vals, start, E.u(unit).units).tz_localize("UTC")
+    elif aware:
         df = df.tz_localize("UTC"); classes.add("tz_aware")
     else:
         classes.add("naive")
@@ -177,6 +197,7 @@ def run_pairs(case, rnd, E):
                     if not observe.close(observe.vrepr(r1), observe.vrepr(r2), rtol=1e-12):
                         V.append({"kind": f"element-wise {cmp_} is not symmetric", "a": da, "b": db})
     cv, cc = contracts.drain()
+    V.extend(BUILDER_VIOLATIONS[:3]); del BUILDER_VIOLATIONS[:]
     for v in cv:
         v["operands_of_case"] = descs[-1]
     for k, x in cc.items():
